@@ -17,19 +17,31 @@ def nameOf (st : St) (c : Nat) : String := if c == 0 then "-" else (st.names[c -
 
 /-- `a,b` ↦ endpoint codes; `-` is the empty list; `E` an empty endpoint string -/
 def endpoints (s : String) : List Nat :=
-  if s == "-" then [] else (s.splitOn ",").map (fun e => if e == "E" then 0 else 1)
+  if s == "-" then [] else (s.splitOn ",").map (fun e => if e == "E" then 0 else e.toNat! + 1)
+
+/-- the machine of what the hosting server registers itself: its own, not a scripted one -/
+def hostMachine : Nat := 999999
 
 def mkInfo (st : St) (name machine process eps : String) (id : Nat) : St × Info :=
   let (st1, c) := code st name
-  (st1, { name := c, id := id, machine := if machine == "-" then 0 else 1, process := process.toNat!, endpoints := endpoints eps })
+  let (st2, m) := code st1 machine
+  (st2, { name := c, id := id, machine := m, process := process.toNat!, endpoints := endpoints eps })
 
 def fresh : St :=
   let (st, c) := code {} "ServiceDirectory"
-  let (d1, _) := register {} { name := c }
+  let (d1, _) := register {} { name := c, machine := hostMachine }
   { st with d := (ready d1 1).1 }
 
+/-- everything an entry says (machine, process, endpoints), so that a list or a lookup that lags
+    behind an update shows -/
+def showInfo (st : St) (i : Info) : String :=
+  if i.machine == hostMachine then s!"{i.id}:{nameOf st i.name}:host" else
+  let eps := if i.endpoints.isEmpty then "-" else
+    ",".intercalate (i.endpoints.map (fun e => if e == 0 then "E" else toString (e - 1)))
+  s!"{i.id}:{nameOf st i.name}:{nameOf st i.machine}:{i.process}:{eps}"
+
 def listStr (st : St) : String :=
-  " ".intercalate ((list st.d).map (fun i => s!"{i.id}:{nameOf st i.name}"))
+  " ".intercalate ((list st.d).map (showInfo st))
 
 def eventsStr (st : St) : String :=
   let added := st.d.events.filterMap (fun e => match e with | .added i n => some s!"{i}:{nameOf st n}" | _ => none)
@@ -91,11 +103,11 @@ def run (st : St) (args : List String) : St × String :=
     ({ st1 with d := d' }, if ok then "ok" else "err")
   | ["sd.service", name] =>
     let (st1, c) := code st name
-    (st1, match lookup st1.d c with | some i => toString i.id | none => "err")
+    (st1, match lookup st1.d c with | some i => showInfo st1 i | none => "err")
   | ["sd.services"] => (st, listStr st)
   | ["sd.lnew", name] =>
     let (st1, c) := code st name
-    let (d1, r) := register st1.d { name := c }
+    let (d1, r) := register st1.d { name := c, machine := hostMachine }
     (match r with
      | some k => ({ st1 with d := (ready d1 k).1 }, s!"ok {k}")
      | none => (st1, "err"))
